@@ -99,6 +99,44 @@ HdrChk(b, h, R) ==
                              pl == DataLen(b, s0, s0 + E(1).offset, p)
                          IN p.offset + pl <= e.offset)               \* laid out in order, no overlap
 
+\* rpm also loads headers whose region covers only the first ril entries, further ("dribble") entries
+\* having been appended after it - in the index and, behind the trailer, in the store.  Inside the
+\* region the rules above hold; dribbles need not continue the ascending order.  For reading (C05) a
+\* header is well formed in this wider sense, provided no tag occurs twice (so that "the tag's value"
+\* is unambiguous).
+HdrChkLoose(b, h, R) ==
+    /\ Fits(b, h)
+    /\ LET n  == NIndex(b, h)
+           dl == DSize(b, h)
+           s0 == StoreAt(b, h)
+           E(k) == Entry(b, h, k)
+       IN
+       /\ n >= 1 /\ n <= 65535
+       /\ \A k \in 1..n : EntrySmall(b, EntryPos(h, k))
+       /\ E(1).tag = R /\ E(1).type = TBin /\ E(1).count = 16
+       /\ E(1).offset >= 0 /\ E(1).offset + 16 <= dl
+       /\ LET tp == s0 + E(1).offset
+              rdl == E(1).offset + 16
+              toff == I32(b, tp + 8)
+              ril == (0 - toff) \div 16
+          IN
+          /\ EntrySmall(b, tp)
+          /\ EntryAt(b, tp).tag = R /\ EntryAt(b, tp).type = TBin /\ EntryAt(b, tp).count = 16
+          /\ toff < 0 /\ (0 - toff) % 16 = 0 /\ ril >= 1 /\ ril <= n
+          /\ \A k \in 2..n :
+               LET e == E(k)
+                   lim == IF k <= ril THEN s0 + E(1).offset ELSE s0 + dl
+                   len == DataLen(b, s0, lim, e) IN
+               /\ e.tag >= 100
+               /\ (k > 2 /\ k <= ril => E(k - 1).tag < e.tag)
+               /\ e.type \in 1..9 /\ e.count >= 1 /\ (e.type = TString => e.count = 1)
+               /\ e.offset >= 0 /\ e.offset % Align(e.type) = 0
+               /\ len > 0
+               /\ (IF k <= ril THEN e.offset + len <= E(1).offset ELSE e.offset >= rdl /\ e.offset + len <= dl)
+               /\ (k > 2 /\ k # ril + 1 =>
+                     LET p == E(k - 1)  pl == DataLen(b, s0, lim, p) IN p.offset + pl <= e.offset)
+          /\ \A j, k \in 2..n : j # k => E(j).tag # E(k).tag
+
 ---------------------------------------------------------------------------
 (* Independent decoding of entry data.  Strings are byte sequences;        *)
 (* integers are digit vectors (see above).                                 *)
